@@ -578,8 +578,12 @@ def execute(spec, world):
         if full:
             with world.step(1, 1, use_fs=False):
                 snap1 = observe.snapshot(shape, probes)
+            # outside coxeter's working window (|coordinate| > 2500) the segment-intersection
+            # helper behind Polygon(...) fails chaotically, and the form factor builds a
+            # Polygon per face: not an observable there
+            fragile = {"form_factor"} if float(np.max(np.abs(verts))) > 2500 else set()
             d = observe.diff_unchanged(snap0, snap1, nbase=probes["n_base"],
-                                       skip=observe.SOLVER_PROPS)
+                                       skip=set(observe.SOLVER_PROPS) | fragile)
             if d:
                 res["violations"].append(violation(
                     PROP, "shape_changed", "%s: %s" % d[0], si, fmt=fmt, what=d[0][0],
